@@ -152,7 +152,9 @@ def class_member(ctx):
         if w.truncated or not rets:
             out.append(bad(key, "CharacterClass::%s could not be enumerated" % m, b.loc()))
         elif all(r in accepted for r in rets) and all(p.end == "return" for p in w.paths):
-            out.append(ok(key))
+            i_ = ok(key)
+            i_.optional = m not in ("contains", "new")  # the other accessors need not exist
+            out.append(i_)
         else:
             odd = [r for r in rets if r not in accepted]
             out.append(bad(key, "CharacterClass::%s answers %s on some path; a class is its inversion list (%s)" % (m, (odd or ["<a path that does not return>"])[0][:160], accepted[0]), b.loc()))
